@@ -2413,9 +2413,11 @@ def closure_glyphs(self, s):
 def subset_glyphs(self, s):
     table = self.table.Baseline
     if table.Format in (1, 3):
+        # sorted: on a tie, most_common() picks the value met first, and the
+        # iteration order of the set s.glyphs depends on the hash seed
         baselines = {
             glyph: table.BaselineValues.get(glyph, table.DefaultBaseline)
-            for glyph in s.glyphs
+            for glyph in sorted(s.glyphs)
         }
         if len(baselines) > 0:
             mostCommon, _cnt = Counter(baselines.values()).most_common(1)[0]
